@@ -36,13 +36,16 @@ def run(prop, tier, seed, replay=None):
             try:
                 modes = [("single", ["discovered", "bound"] if quick else ["connected", "discovered", "bound", "pending"], 0),
                          ("pairs", ["bound"] if quick else ["discovered", "bound", "pending"], 60 if quick else 1500),
-                         ("seq", ["bound"], 40 if quick else 400)]
+                         ("seq", ["bound"], 40 if quick else 400),
+                         ("followup", ["bound"], 0)]
                 if quick:
                     modes.insert(1, ("single1", ["connected", "pending"], 0))
                 for mode, phases, sample in modes:
                     tmpls = set(cat)
                     if mode == "single1":  # the other two phases with a third of the templates (quick tier)
                         mode, tmpls = "single", {"discReply", "discNotifyAdd", "subRequest", "bindDelete", "write", "result", "readSel"}
+                    if mode == "followup" and quick:  # quick tier: the data-carrying messages first (thorough: the discovery ones too)
+                        tmpls = tmpls - {"discReply", "discNotifyAdd", "discNotifyFull", "subRequest", "bindDelete", "discNotifyRemove"}
                     c = {"Templates": tmpls, "Phases": set(phases), "Mode": mode, "MaxSeq": 2, "Sample": sample, "JunkKinds": 12}
                     code, out = run_tlc("RobustRun.tla", cfg_text("Spec", c, subst={"NFields": "NFieldsDef"}, invariants=["StillServing"], action_constraints=[],
                                                                     constraints=["Emit"]), timeout=3000, workers=1, heap="8g", extra=["-seed", str(seed)])
@@ -101,8 +104,8 @@ def run(prop, tier, seed, replay=None):
             kf = next(x for x in known if x["property"] == prop and x.get("function") == f)
             print("KNOWN-FINDING: property=%s panic in %s: %s" % (prop, f, kf["identified_by"]))
         cov = {"evaluations": lines, "distinct_nontrivial": len(cases),
-               "rule": "every single-field mutation (711 JSON paths of 17 templates x 5 operations) and 12 junk variants per template in the connection phases, seeded samples of two-field "
-                       "mutations and of two-delivery sequences, enumerated by TLC from Robust.tla; each delivered to a fresh real stack with two peers; distinct = cases",
+               "rule": "every single-field mutation (711 JSON paths of 17 templates x 5 operations) and 12 junk variants per template in the connection phases, every single-field mutation of a "
+                       "state-carrying message followed by every valid data message, seeded samples of two-field mutations and of two-delivery sequences, enumerated by TLC from Robust.tla; each delivered to a fresh real stack with two peers; distinct = cases",
                "samples": [sample], "model_states": states, "bad": nbad, "known_panic_functions_seen": sorted(devs), "fields": sum(len(v) for v in cat.values()),
                "checker_cmd": "tlc Robust.tla (enumeration); harness robust-replay; tlc RobustTrace.tla"}
         write_evidence(prop, tier, seed, "fault_enumeration", cov, ASSUME, time.time() - t0, viol)
